@@ -221,6 +221,40 @@ static void creation_case(int type, int a, int b, int viafile)
   mc_st->executed++; mc_st->compared++; mc_st->nontrivial++;
 }
 
+/* keys of several sections created alternately (so that a section's entries are not adjacent), overwritten, fetched */
+static void interleave_case(int type, int viafile)
+{
+  static const char *GR[3] = { NULL, "net", "disk" };
+  econf_file *w = NULL, *r = NULL; char key[8], msg[200], m2[400], path[400];
+  int tag = 400 + viafile * 8 + type;
+  econf_newKeyFile(&w, '=', '#');
+  m2[0] = 0;
+  for (int pass = 0; pass < 2 && !m2[0]; pass++)          /* pass 0 creates, pass 1 overwrites */
+    for (int k = 0; k < 3 && !m2[0]; k++) for (int g = 0; g < 3 && !m2[0]; g++) {
+      uint64_t bits = type == T_BOOL ? (uint64_t)((g + k + pass) % nbool) : 0x40490fdbu + (uint64_t)(g * 16 + k) + (pass ? 0x100 : 0);
+      snprintf(key, sizeof key, "k%d", k); set_group = GR[g];
+      econf_err rc = do_set(w, key, type, bits);
+      if (rc) snprintf(m2, sizeof m2, "setter for [%s]%s returned %d", GR[g] ? GR[g] : "", key, (int)rc);
+    }
+  econf_file *q = w;
+  if (!m2[0] && viafile) { econf_err rc = econf_writeFile(w, mc_work, "il.conf"); snprintf(path, sizeof path, "%s/il.conf", mc_work); if (!rc) rc = econf_readFile(&r, path, "=", "#"); q = r; if (rc) snprintf(m2, sizeof m2, "write/read failed with %d", (int)rc); }
+  for (int k = 0; k < 3 && !m2[0]; k++) for (int g = 0; g < 3 && !m2[0]; g++) {
+    uint64_t bits = type == T_BOOL ? (uint64_t)((g + k + 1) % nbool) : 0x40490fdbu + (uint64_t)(g * 16 + k) + 0x100;
+    snprintf(key, sizeof key, "k%d", k); get_group = GR[g];
+    if (do_get_check(q, key, type, bits, msg, sizeof msg)) snprintf(m2, sizeof m2, "[%s]%s%s: %s", GR[g] ? GR[g] : "", key, viafile ? " after write/read" : "", msg);
+  }
+  if (m2[0]) {
+    snprintf(mc_st->cur_id, sizeof mc_st->cur_id, "b0t%d:0", tag);
+    mc_case_failed = 0;
+    char sig[100]; snprintf(sig, sizeof sig, "interleaved sections %s %d", TN[type], viafile);
+    mc_fail(sig, "%s values stored in keys of three sections that were created alternately: %s", TN[type], m2);
+  }
+  if (w) econf_freeFile(w);
+  if (r) econf_freeFile(r);
+  set_group = get_group = NULL;
+  mc_st->executed++; mc_st->compared++; mc_st->nontrivial++;
+}
+
 static void gen(void) { mc_tag = mc_tag; (void)mc_choose(65536); (void)mc_choose(65536); (void)mc_choose(65536); (void)mc_choose(65536); }
 static void exec_one(void)
 {
@@ -238,12 +272,14 @@ int main(int argc, char **argv)
   econf_newKeyFile(&kf, '=', '#');
   if (mc_opt.case_id) {
     const char *t = strchr(mc_opt.case_id, 't'); int tag = t ? atoi(t + 1) : 0;
+    if (tag >= 400) { printf("CASE %s\n", mc_opt.case_id); interleave_case((tag - 400) % 8, (tag - 400) / 8); printf(mc_st->failures ? "RESULT: FAIL\n" : "RESULT: PASS\n"); return mc_st->failures ? 1 : 0; }
     if (tag >= 100) { int v = tag - 100, type = v % 8; v /= 8; printf("CASE %s\n", mc_opt.case_id); creation_case(type, (v / 2) / 3, (v / 2) % 3, v % 2); printf(mc_st->failures ? "RESULT: FAIL\n" : "RESULT: PASS\n"); return mc_st->failures ? 1 : 0; }
     return mc_replay(gen, exec_one, mc_opt.case_id);
   }
   /* the key is CREATED by the typed setter through every spelling of "no section" and fetched through every spelling */
   if (mc_opt.shard == 0)
     for (int type = 0; type < T_N; type++) for (int a = 0; a < 3; a++) for (int b = 0; b < 3; b++) for (int viafile = 0; viafile < 2; viafile++) creation_case(type, a, b, viafile);
+  if (mc_opt.shard == 0) for (int type = 0; type < T_N; type++) for (int viafile = 0; viafile < 2; viafile++) interleave_case(type, viafile);
   /* 32-bit spaces */
   for (int type = T_I32; type <= T_F32; type++) {
     if (exhaustive32) {
